@@ -167,7 +167,7 @@ func (ss *sess) matrixScenario(sc scenario, sites []site) bool {
 	if sc.tri {
 		if fs[0].markOK {
 			fs = append(fs,
-				buildFence(fmt.Sprintf("hk%d", sc.n%4), kHook, ss.key, sh, sc.detect, sc.v.accept, sc.v.match, sc.v.where),
+				buildFence(ss.hookName(), kHook, ss.key, sh, sc.detect, sc.v.accept, sc.v.match, sc.v.where),
 				buildFence("", kLive, ss.key, sh, sc.detect, sc.v.accept, sc.v.match, sc.v.where))
 		} else {
 			ss.ctx.Count("tri_unmarkable_channel_only", 1)
@@ -274,7 +274,7 @@ func (ss *sess) walk(wn int, sites []site, withHooks bool, withExpiry bool) bool
 		kind := kChan
 		name := fmt.Sprintf("w%d", i)
 		if withHooks && i == 0 {
-			kind, name = kHook, fmt.Sprintf("hk%d", 4+wn%2)
+			kind, name = kHook, ss.hookName()
 		} else if withHooks && i == 1 {
 			kind, name = kLive, ""
 		}
